@@ -421,18 +421,31 @@ class OsOther(OSError, Other):
     pass
 
 
+import abc as _abc
+
+
+class Transient(Exception, metaclass=_abc.ABCMeta):
+    """a marker class: exception types are *registered* with it (Transient.register(SubB)), so that isinstance / issubclass say
+    yes although it is in nobody's list of bases - the way collections.abc classes are matched"""
+
+
+Transient.register(SubB)
+Transient.register(ConnectionResetError)
+
+
 def _diamond_classes():
     import io
     import ssl
     # io.UnsupportedOperation is (OSError, ValueError); ssl.SSLCertVerificationError is (SSLError, ValueError)
-    return [Base, SubA, Other, OSError, ValueError, Both, OsOther, io.UnsupportedOperation, ssl.SSLCertVerificationError]
+    # (index 4, Transient, matches SubB and ConnectionResetError by registration only)
+    return [Base, SubA, Other, OSError, Transient, Both, OsOther, io.UnsupportedOperation, ssl.SSLCertVerificationError, SubB, ConnectionResetError, ValueError]
 
 
 def diamond_cases(tier, seed):
     """an exception may match retry_for through one base class and do_not_retry_for through another (the two filters themselves
     share no class): do_not_retry_for wins, as for any other exception"""
     n = len(_diamond_classes())
-    filt = [c for r in (0, 1, 2) for c in itertools.combinations(range(5), r)]
+    filt = [c for r in (0, 1, 2) for c in itertools.combinations((0, 1, 2, 3, 4, 11), r)]
     pairs = [(rf, dn) for rf in filt for dn in filt if not set(rf) & set(dn)]
     for attempts in (2, 3):
         seqs = set()
